@@ -60,6 +60,35 @@ def obligations():
         for g in (0, 5, 10, 15):
             o.append(Obl(f"C10.voxel.nocell.{c}.g{g}", "py", V, "voxel_pair", venc, f"no cell (coordinates laid out as for cell {c}), cutoff as there, grid point {g}", "lists == [[1], [0]] exactly when the plain distance is below the cutoff", 600,
                          params={"cell": c, "cut_frac": 0.8, "g0": g, "periodic": False}))
+    from harness.c10_voxel import CELLS as VC
+    for c in ("triclinic", "skewed", "hex"):
+        by, cy, cz = float(VC[c][1][1]), float(VC[c][2][1]), float(VC[c][2][2])
+        yz = lambda fy, fz: (round(fy * by + fz * cy, 4), round(fz * cz, 4))
+        for tag, A, B in (("zface", (0.5, 0.03), (0.5, 0.97)), ("zface_shifted", (0.3, 0.04), (0.42, 0.96)), ("yface", (0.03, 0.5), (0.97, 0.5)), ("yface_shifted", (0.04, 0.3), (0.96, 0.38))):
+            for order in (0, 1):
+                P0, P1 = (yz(*A), yz(*B)) if order == 0 else (yz(*B), yz(*A))
+                o.append(Obl(f"C10.voxel.{c}.{tag}.order{order}", "py", V, "voxel_pair", venc, f"cell {c}, SMALL cutoff (0.4 x half width: many voxel rows), a pair straddling a cell face at fractional (y, z) {A} / {B}, atom order {order}; x symbolic",
+                             "same: the neighbour is reached through the periodic image of a voxel layer / row, whose window is shifted by the image's offset", 900,
+                             params={"cell": c, "cut_frac": 0.4, "g0": 0, "points": f"{P0[0]},{P0[1]},{P1[0]},{P1[1]}"}))
+    for c in ("cubic3", "ortho543", "triclinic"):
+        by, cy, cz = float(VC[c][1][1]), float(VC[c][2][1]), float(VC[c][2][2])
+        yz = lambda fy, fz: (round(fy * by + fz * cy, 4), round(fz * cz, 4))
+        for tag, A, B in (("below_y", (-0.3, 0.5), (0.59, 0.5)), ("below_z", (0.5, -0.3), (0.5, 0.62)), ("above_y", (1.2, 0.5), (0.31, 0.52)), ("below_both", (-0.3, -0.3), (0.62, 0.6))):
+            for order in (0, 1):
+                P0, P1 = (yz(*A), yz(*B)) if order == 0 else (yz(*B), yz(*A))
+                o.append(Obl(f"C10.voxel.{c}.{tag}.order{order}", "py", V, "voxel_pair", venc, f"cell {c}, SMALL cutoff (0.4 x half width), one atom stored OUTSIDE the cell at fractional (y, z) {A}, the other inside at {B} (a neighbour of its wrapped image in y / z), atom order {order}; x symbolic",
+                             "same: the outside atom must be binned where its wrapped image is", 900, params={"cell": c, "cut_frac": 0.4, "g0": 0, "points": f"{P0[0]},{P0[1]},{P1[0]},{P1[1]}"}))
+    for c in ("cubic3", "ortho543"):
+        for g in (0, 63):
+            for r_ in (4, 5):
+                o.append(Obl(f"C10.voxel.{c}.cut40.fine.g{g}.row{r_}", "py", V, "voxel_pair", venc, f"cell {c}, cutoff 0.4 x half width, fine grid: atom 0 at grid point {g}, atom 1 over row {r_} (8 positions)", "same", 3000,
+                             params={"cell": c, "cut_frac": 0.4, "g0": g, "grid": "fine", "row": r_}, tiers=("thorough",)))
+    for g in range(0, 64, 3):
+        o.append(Obl(f"C10.voxel.nocell.stretched_fine.g{g}", "py", V, "voxel_pair", venc, f"no cell, cutoff 1.2, FINE grid; a third atom at (100, 2.0, 3.2) makes the voxels taller than the cutoff in y and shorter in z for part of the grid; pair grid point {g} of 64",
+                     "same", 900, params={"cell": "cubic3", "cut_frac": 0.8, "g0": g, "periodic": False, "spectator": "100,2.0,3.2", "grid": "fine"}))
+    for g in (0, 5, 6, 9, 10, 15):
+        o.append(Obl(f"C10.voxel.nocell.stretched.g{g}", "py", V, "voxel_pair", venc, f"no cell, cutoff 1.2; a third atom at (100, 2.0, 9.5) stretches the bounding box (2 voxel rows in y, 8 layers in z: different voxel sizes in y and z); pair grid point {g}",
+                     "the pair is listed exactly when its plain distance is below the cutoff; the far atom has no neighbours", 900, params={"cell": "cubic3", "cut_frac": 0.8, "g0": g, "periodic": False, "spectator": "100,2.0,9.5"}))
     return o
 
 
